@@ -19,6 +19,8 @@
 (*                   newest ref the caller holds for the label set,        *)
 (*                   "stale": own refs, staleness markers as values        *)
 (*                   (headAppender.Append / getOrCreate / log / commit)    *)
+(*   Rollback(S)     one appender: Append for S, Rollback (created series  *)
+(*                   stay, only their series record is logged)             *)
 (*   Cross(l,r)      Append(r, l, ...) with a ref the caller got for       *)
 (*                   another label set or that is outdated                 *)
 (*   OOO(l,t)        an out-of-order sample (memSeries.insert, WBL)        *)
@@ -292,6 +294,9 @@ ScriptOOO == <<{"Scrape"}, {"Scrape"}, {"OOO"}, {"Scrape", "Mmap", "OOO"}, {"Cut
 \* chunk is attached to the new series by the restart after that
 ScriptH10 == <<{"Scrape"}, {"Scrape"}, {"OOO"}, {"CompactHead"}, {"CompactOOO"}, {"Cut"}, {"Cut"}, {"Scrape"}, {"CompactHead"},
                {"Restart"}, {"Scrape"}, {"Restart"}>>
+\* a series is garbage-collected while its series record stays in the WAL, comes back under a new (highest) ref of which
+\* only the series record is logged (rolled-back append), restart, new series, restart
+ScriptDup == <<{"Scrape"}, {"Scrape"}, {"CompactHead"}, {"Rollback"}, {"Restart", "Crash"}, {"Scrape"}, {"Restart"}>>
 \* shortest routes to the two known findings
 ScriptKF == <<{"Scrape"}, {"Restart"}, {"Scrape", "EvictSel"}, {"Restart"}, {"Scrape"}>>
 
@@ -301,6 +306,7 @@ Subsets == IF ScrapeSets = {} THEN (SUBSET Labs) \ {{}} ELSE ScrapeSets
 \* kinds are all impossible falls back to the free alphabet instead of ending the history
 Possible ==
   {"Scrape", "Cross", "Cut", "Restart", "Crash"}
+  \cup (IF hMin # INF /\ \E l \in Labs : ~ser[l].ex THEN {"Rollback"} ELSE {})
   \cup (IF \E l \in Labs : ser[l].ex /\ (\E c \in ser[l].ch : c.f = 0) /\ (\E d \in OOOBack : clk - d >= 1 /\ clk - d < MaxOr({x.t : x \in UNION {c.s : c \in ser[l].ch}}, NEG)
                                          /\ clk - d \notin {x.t : x \in UNION {c.s : c \in ser[l].ch} \cup ser[l].ooh \cup UNION {c.s : c \in ser[l].oom}}) THEN {"OOO"} ELSE {})
   \cup (IF \E l \in Labs : ser[l].ex /\ Cardinality({c \in ser[l].ch : c.f = 0}) >= 2 THEN {"Mmap"} ELSE {})
@@ -401,6 +407,23 @@ Scrape(S, kind, gap) ==
   /\ LET argf == [l \in S |-> IF kind = "zero" THEN 0 ELSE OwnRef(l)]
          A == AppendAll(A0, LabSeq(S), argf, clk, kind = "stale")
      IN CommitA(A, clk, FALSE, "Scrape", [kind |-> kind], gap)
+
+\* One appender appends for the label sets of S and rolls back: headAppenderBase.Rollback drops the samples, but the series
+\* that the Appends created stay in the head (without chunks, until the next gc) and their series record is logged alone
+\* ("Series are created in the head memory regardless of rollback. Thus we have to log them to the WAL in any case.")
+RollbackWith(A) ==
+  /\ A.kf \subseteq AllowKF
+  /\ kfset' = kfset \cup A.kf
+  /\ ser' = [l \in Labs |-> IF ser[l].ex THEN ser[l] ELSE IF A.ser[l].ex THEN NewObj(A.ser[l].r) ELSE NoObj]
+  /\ byRef' = A.byRef /\ lastID' = A.lastID /\ issued' = A.issued
+  /\ segs' = [segs EXCEPT ![Len(segs)] = @ \o A.news]
+  /\ UNCHANGED <<exp, hMin, hMax, minValid, lastTr, minOOO, curF, cutNext, fastOn, first, cp, wbl, files, blk, blkMax, snap, sst, clk, cn>>
+  /\ Step([a |-> "Rollback", t |-> clk, apps |-> A.recs])
+Rollback(S) ==
+  /\ "Rollback" \in Allowed
+  /\ clk <= MaxClk /\ hMin # INF            \* (on an empty head the first Append would initialise the head's time range)
+  /\ \E l \in S : ~ser[l].ex                \* only interesting when a series is created
+  /\ RollbackWith(AppendAll(A0, LabSeq(S), [l \in S |-> 0], clk, FALSE))
 
 \* Append with a ref the caller obtained for another label set (or an outdated one of its own)
 Cross(l, r, gap) ==
@@ -722,6 +745,7 @@ End == nops = MaxOps /\ nops' = MaxOps + 1 /\ UNCHANGED <<mvars, dvars, clk, cn,
 Next ==
   \/ /\ nops < MaxOps
      /\ \/ \E S \in Subsets, kind \in Kinds, g \in Gaps : Scrape(S, kind, g)
+        \/ \E S \in Subsets : Rollback(S)
         \/ \E l \in Labs, r \in 1..lastID, g \in Gaps : Cross(l, r, g)
         \/ \E l \in Labs, d \in OOOBack : OOO(l, clk - d)
         \/ Mmap
@@ -767,7 +791,7 @@ MapsAgree ==
 AllocAbove == kfset # {} \/ \A r \in DOMAIN byRef : r <= lastID
 
 \* an Append with a cached reference resolves to the series it was handed out for or to the given labels
-AppendRight == [][ (hist' # hist /\ kfset' = {} /\ hist'[Len(hist')].a \in {"Scrape", "Cross", "OOO"}) =>
+AppendRight == [][ (hist' # hist /\ kfset' = {} /\ hist'[Len(hist')].a \in {"Scrape", "Cross", "OOO", "Rollback"}) =>
                      \A i \in 1..Len(hist'[Len(hist')].apps) :
                         LET p == hist'[Len(hist')].apps[i] IN p.tl \in Range(p.own) ]_vars
 
@@ -783,6 +807,9 @@ KeptLabs == LET r == lastID IN
 KeptBy == LET r == lastID IN
           (IF \E e \in Range(cp.es) : e.r = r /\ e.k = "S" THEN {"cpS"} ELSE {})
           \cup (IF \E e \in Range(Flat(segs)) : e.r = r /\ e.k = "S" THEN {"S"} ELSE {})
+          \* ... by the series record of a duplicate: the same label set also has a series record under another ref
+          \cup (IF \E e \in Range(AllEntries) : e.r = r /\ e.k = "S" /\ \E d \in Range(AllEntries) : d.k = "S" /\ d.l = e.l /\ d.r # r
+                THEN {"dupS"} ELSE {})
           \cup (IF \E e \in Range(AllEntries) : e.r = r /\ e.k = "T" THEN {"T"} ELSE {})
           \cup (IF \E e \in Range(AllEntries) : e.r = r /\ e.k = "D" THEN {"D"} ELSE {})
           \cup (IF \E f \in DOMAIN files : \E c \in Range(files[f]) : c.r = r THEN {"chunk"} ELSE {})
@@ -790,7 +817,7 @@ KeptBy == LET r == lastID IN
           \cup (IF r \in DOMAIN byRef THEN {"live"} ELSE {})
 Class ==
   LET r == LastRec IN
-  IF r.a \in {"Scrape", "Cross", "OOO"} THEN
+  IF r.a \in {"Scrape", "Cross", "OOO", "Rollback"} THEN
        <<r.a, {<<p.creat, p.arg = 0, p.arg # 0 /\ p.arg \notin DOMAIN byRef, p.tl = p.l, p.reuse, p.ret = lastID + 1, p.creat /\ p.l \in KeptLabs>> : p \in Range(r.apps)},
          cp.idx >= 0, KeptBy, UNION {issued[l] : l \in Labs} = {}, kfset' # {}>>
   ELSE IF r.a = "CompactHead" THEN <<r.a, ser' # ser, cp' # cp, Len(cp'.es) < Len(cp.es) + Len(Flat(segs)), files' # files, DOMAIN exp' # DOMAIN exp, kfset # {}>>
